@@ -238,10 +238,34 @@ fn create_doc_for_if_else(
   comment_store: &CommentStore,
   if_else: &expr::IfElse<()>,
 ) -> Document {
-  let expanded = create_doc_for_if_else_customized_flattened(heap, comment_store, true, if_else);
-  if let Some(flattened) =
-    create_doc_for_if_else_customized_flattened(heap, comment_store, false, if_else).flatten()
+  // The condition and block content documents are built only once and shared between the expanded
+  // and the flattened candidate. Building the two candidates separately doubles the work at every
+  // level of nested if-else, which makes formatting exponential in the nesting depth.
+  let (chain, final_else) = flattened_if_else(if_else);
+  let mut branches = Vec::new();
+  for (i, FlattenedIfElseChainElement { comments, condition, e1 }) in chain.into_iter().enumerate()
   {
+    let condition_doc = create_doc_for_if_else_condition(
+      heap,
+      comment_store,
+      if i == 0 { NO_COMMENT_REFERENCE } else { comments },
+      condition,
+    );
+    branches.push((condition_doc, create_block_content_docs(heap, comment_store, e1)));
+  }
+  let final_else_content = create_block_content_docs(heap, comment_store, final_else);
+  let build = |force_expanded: bool| {
+    let mut documents = Vec::new();
+    for (condition_doc, block_content) in &branches {
+      documents.push(condition_doc.clone());
+      documents.push(create_doc_for_block_content(force_expanded, block_content.clone()));
+      documents.push(Document::Text(" else "));
+    }
+    documents.push(create_doc_for_block_content(force_expanded, final_else_content.clone()));
+    Document::concat(documents)
+  };
+  let expanded = build(true);
+  if let Some(flattened) = build(false).flatten() {
     Document::Union(Rc::new(flattened), Rc::new(expanded))
   } else {
     expanded
@@ -304,29 +328,6 @@ fn create_doc_for_if_else_condition(
     }
   };
   documents.push(Document::Text(" "));
-  Document::concat(documents)
-}
-
-fn create_doc_for_if_else_customized_flattened(
-  heap: &Heap,
-  comment_store: &CommentStore,
-  force_expanded: bool,
-  if_else: &expr::IfElse<()>,
-) -> Document {
-  let (chain, final_else) = flattened_if_else(if_else);
-  let mut documents = Vec::new();
-  for (i, FlattenedIfElseChainElement { comments, condition, e1 }) in chain.into_iter().enumerate()
-  {
-    documents.push(create_doc_for_if_else_condition(
-      heap,
-      comment_store,
-      if i == 0 { NO_COMMENT_REFERENCE } else { comments },
-      condition,
-    ));
-    documents.push(create_doc_for_block(heap, comment_store, force_expanded, e1));
-    documents.push(Document::Text(" else "));
-  }
-  documents.push(create_doc_for_block(heap, comment_store, force_expanded, final_else));
   Document::concat(documents)
 }
 
@@ -513,6 +514,18 @@ fn create_doc_for_block(
   force_expanded: bool,
   block: &expr::Block<()>,
 ) -> Document {
+  create_doc_for_block_content(
+    force_expanded,
+    create_block_content_docs(heap, comment_store, block),
+  )
+}
+
+/// The documents of the statements (each followed by a hard line) and of the final expression.
+fn create_block_content_docs(
+  heap: &Heap,
+  comment_store: &CommentStore,
+  block: &expr::Block<()>,
+) -> (Vec<Document>, Option<Document>) {
   let mut segments = Vec::new();
   for stmt in &block.statements {
     segments.push(statement_to_document(heap, comment_store, stmt));
@@ -529,6 +542,13 @@ fn create_doc_for_block(
     segments.push(Document::LineHard);
   }
   let final_expr_doc = block.expression.as_ref().map(|e| create_doc(heap, comment_store, e));
+  (segments, final_expr_doc)
+}
+
+fn create_doc_for_block_content(
+  force_expanded: bool,
+  (mut segments, final_expr_doc): (Vec<Document>, Option<Document>),
+) -> Document {
   if segments.is_empty() {
     if force_expanded {
       Document::concat(vec![
